@@ -139,6 +139,20 @@ def parseOp (ws : List String) : Option (Nat × Nat × Op) :=
           match nats? [i, a] with
           | some [i, a] => some (.donate i a)
           | _ => none
+        -- entry points a cw20-LP pool refuses: direct `WithdrawLiquidity {}` (`sel` = attached coins),
+        -- `WithdrawLiquidity` hook from pool asset `i`, `Swap` hook from the LP token
+        | "wdirect", [sel, a] =>
+          match nats? [sel, a] with
+          | some [sel, a] => if sel ≤ 6 then some (.foreign 0 sel a) else none
+          | _ => none
+        | "wfake", [i, a] =>
+          match nats? [i, a] with
+          | some [i, a] => if i < 3 then some (.foreign 1 i a) else none
+          | _ => none
+        | "sfake", [k, a] =>
+          match nats? [k, a] with
+          | some [k, a] => if k < 3 then some (.foreign 2 k a) else none
+          | _ => none
         | _, _ => none
       op.map fun op => (h, u, op)
     | _, _ => none
